@@ -612,7 +612,11 @@ func (n *networkService) gcPods(ctx context.Context) error {
 
 		// that is old logic ... keep it
 		if n.ipamType != types.IPAMTypeCRD && podRes.PodInfo.IPStickTime != 0 {
-			podRes.PodInfo.IPStickTime = 0
+			// work on a copy: PodInfo is shared with the record cached in memory, which must
+			// only change when the write below succeeds
+			info := *podRes.PodInfo
+			info.IPStickTime = 0
+			podRes.PodInfo = &info
 
 			err = n.resourceDB.Put(podID, podRes)
 			if err != nil {
